@@ -1271,3 +1271,11 @@ func ParseNumberRef(s string) (float64, bool) {
 }
 
 var _ = unicode.ToUpper
+
+// unmodelledBuiltins are built-ins of the library that the reference does not
+// implement; a program that uses one is skipped, never judged.
+var unmodelledBuiltins = map[string]bool{
+	"match": true, "formatNumber": true, "formatBase": true, "base64encode": true, "base64decode": true,
+	"decodeUrl": true, "decodeUrlComponent": true, "encodeUrl": true, "encodeUrlComponent": true,
+	"random": true, "shuffle": true, "fromMillis": true, "toMillis": true, "now": true, "millis": true,
+}
